@@ -44,7 +44,13 @@ Holds(c, r) ==
                                           IN \A b \in DOMAIN bl : IF bl[b].k \in {"Step", "TextBlock"}
                                                                   THEN \A i \in DOMAIN bl[b].items : bl[b].items[i] \in evset
                                                                   ELSE bl[b] \in evset
-    [] c = "DiagnosedAsSpecified"    -> Ok(r) => \A q \in DOMAIN spec : IsDiag(spec[q]) => HasCounterpart(spec[q], r.obs.evs)
+    \* every specified diagnostic has a counterpart of its kind on a touching label, and invalid constructs of different
+    \* classes (the SPECIFICATION's classes) are not answered by one and the same diagnostic: at least as many diagnostics of a
+    \* kind as the specification has classes of that kind (duplicates of one class may be merged by the implementation)
+    [] c = "DiagnosedAsSpecified"    -> Ok(r) => /\ \A q \in DOMAIN spec : IsDiag(spec[q]) => HasCounterpart(spec[q], r.obs.evs)
+                                                 /\ \A k \in {"Error", "Warning"} :
+                                                       Cardinality({q \in DOMAIN r.obs.evs : IsDiag(r.obs.evs[q]) /\ r.obs.evs[q].k = k})
+                                                       >= Cardinality({spec[q].cls : q \in {x \in DOMAIN spec : IsDiag(spec[x]) /\ spec[x].k = k}})
 Details == {"ExactlyAsSpecified", "AstAsSpecified"}
 Agrees(d, r) == CASE d = "ExactlyAsSpecified" -> Ok(r) => r.obs.evs = Spec(r)
                   [] d = "AstAsSpecified" -> (Ok(r) /\ r.obs.ast.st = "ok") => r.obs.ast.blocks = AstOf(Spec(r))
